@@ -60,6 +60,16 @@ func runC20(c *core.Ctx) {
 	c.Defer(func() { rig.NominationAttr = stun.AttrType(0xC001) })
 	c.Knob("withOption", withOption)
 	c.Knob("holdBack", holdBack)
+	// The repeat budget (MaxBindingRequests) is a configuration input: large, the default, or small. With a
+	// small budget the harness keeps the loss of every nomination value within it (at most budget-2 copies of
+	// a value - requests or their responses - are lost), so that "the highest value issued wins" is still owed;
+	// the controlled side's own checks are not held back then, because a pair that used up a small budget
+	// there is legitimately Failed.
+	budget := uint16(200)
+	if holdBack == 0 && !bothLite {
+		budget = []uint16{200, 200, 7, 4, 3}[t.Choose(5, "budget")]
+	}
+	c.Knob("maxBindingRequests", budget)
 	c.Knob("faulty", faulty)
 	c.Knob("nRenom", nRenom)
 	// nomination values: the default generator (1, 2, 3, ...) or an application's own increasing values anywhere
@@ -92,7 +102,7 @@ func runC20(c *core.Ctx) {
 		o := []ice.AgentOption{
 			ice.WithCheckInterval(ci), ice.WithKeepaliveInterval(ka),
 			ice.WithDisconnectedTimeout(10 * time.Second), ice.WithFailedTimeout(30 * time.Second),
-			ice.WithMaxBindingRequests(200),
+			ice.WithMaxBindingRequests(budget),
 			ice.WithSrflxAcceptanceMinWait(0), ice.WithPrflxAcceptanceMinWait(0),
 			ice.WithCandidateTypes([]ice.CandidateType{ice.CandidateTypeHost, ice.CandidateTypeServerReflexive}),
 		}
@@ -128,7 +138,7 @@ func runC20(c *core.Ctx) {
 	// peer-reflexive candidate from A's checks, and the signalled candidate replaces it in the middle of the
 	// renominations (possibly while a nomination of such a pair is waiting for the pair to become valid).
 	var lateCand ice.Candidate
-	lateTrickle := t.Bias(1, 3, "late-trickle")
+	lateTrickle := budget >= 200 && t.Bias(1, 3, "late-trickle")
 	c.Knob("lateTrickle", lateTrickle)
 	for _, cand := range d.A.LocalCands() {
 		if lateTrickle && cand.Type() == ice.CandidateTypeServerReflexive && lateCand == nil {
@@ -253,16 +263,62 @@ func runC20(c *core.Ctx) {
 	// otherwise they are only reordered and duplicated.
 	lossy := t.Bias(1, 2, "lose-nominations")
 	c.Knob("loseNominations", lossy)
+	lostBy := map[uint32]int{}
+	// mayLose: the loss of this datagram stays within the repeat budget of the nomination value it carries
+	// (or answers); datagrams that carry no nomination value are not limited
+	mayLose := func(dg *simnet.Datagram) bool {
+		if budget >= 200 {
+			return true
+		}
+		m := rig.Decode(dg.Payload)
+		if !m.IsSTUN {
+			return true
+		}
+		var v uint32
+		switch {
+		case m.Class == stun.ClassRequest && m.Nomination != nil:
+			v = *m.Nomination
+		case byTx[m.TxID] != nil:
+			v = byTx[m.TxID].value
+		default:
+			return true
+		}
+		if lostBy[v] >= int(budget)-2 {
+			return false
+		}
+		lostBy[v]++
+		return true
+	}
 	d.S.CanDrop = func(dg *simnet.Datagram) bool {
 		if lossy {
-			return true
+			return mayLose(dg)
 		}
 		m := rig.Decode(dg.Payload)
 		return !(m.IsSTUN && (byTx[m.TxID] != nil || m.Nomination != nil))
 	}
+	// an outage of the nomination traffic: while it lasts every request that carries a nomination value is lost
+	// on its way to the controlled side (within the budget of its value), so that a renomination is issued
+	// while earlier ones are still unanswered and being repeated
+	outage := lossy && budget < 200 && t.Bias(1, 2, "nomination-outage")
+	c.Knob("nominationOutage", outage)
+	filterNom := func() {
+		if !outage {
+			return
+		}
+		for _, dg := range d.W.InFlight() {
+			m := rig.Decode(dg.Payload)
+			if m.IsSTUN && m.Class == stun.ClassRequest && m.Nomination != nil && mayLose(dg) {
+				d.W.Drop(dg)
+				c.Fault("nomination-outage-loss")
+			}
+		}
+	}
 	o := &c20Oracle{c: c, d: d, led: led, noms: &noms}
 	step := func(fair bool) {
 		filterB()
+		if !fair {
+			filterNom()
+		}
 		preB = bSnapBefore()
 		if fair {
 			d.S.StepFair(ci / 2)
@@ -375,6 +431,9 @@ func runC20(c *core.Ctx) {
 	for r := 0; r < nRenom && !c.Failed(); r++ {
 		issue()
 		n := c.T.Range(0, 25, "between")
+		if outage && n > 8 {
+			n /= 4 // the next renomination comes while this one is still being repeated
+		}
 		at := -1
 		if r == trickleAt {
 			at = c.T.Range(0, n, "trickle-step")
@@ -391,6 +450,9 @@ func runC20(c *core.Ctx) {
 		}
 		if holdBack == 2 && c.T.Bias(1, 2, "releasehold") {
 			holding = false
+		}
+		if outage && c.T.Bias(1, 3, "outage-ends") {
+			outage = false
 		}
 	}
 	if c.Failed() {
